@@ -137,7 +137,12 @@ func intToFixed(ctx context.Context, component *typeComponent, cv *ComponentValu
 	if component.n == 0 {
 		return nil, i18n.NewError(ctx, signermsgs.MsgBadABITypeComponent, component)
 	}
-	f := new(big.Float).SetInt(cv.Value.(*big.Int))
+	// Most decimal fractions have no exact binary representation, so the value returned is the nearest
+	// binary one. With a mantissa only as wide as the integer itself, two adjacent integers can yield the
+	// same value, and re-encoding the value (which rounds X * 10**N to the nearest integer) can yield a
+	// neighbor of the integer that was decoded. 64 extra bits keep the value well within half a unit.
+	i := cv.Value.(*big.Int)
+	f := new(big.Float).SetPrec(uint(i.BitLen()) + 64).SetInt(i) //nolint:gosec // BitLen is never negative
 	fN := new(big.Int).Exp(big.NewInt(10), big.NewInt(int64(component.n)), nil)
 	cv.Value = f.Quo(f, new(big.Float).SetInt(fN))
 	return cv, nil
